@@ -4,7 +4,8 @@ import PlzVerif.Generated.C37
 open PlzVerif PlzVerif.Cmd PlzVerif.Proto
 
 def facts : List SeqDef := Generated.C37.seqs.map fun x => ⟨x.1, x.2.1, x.2.2.1, x.2.2.2.1, x.2.2.2.2.1, x.2.2.2.2.2.1, x.2.2.2.2.2.2⟩
-def qf : QuoteFacts := ⟨Generated.C37.quoteChars, Generated.C37.quoteLeft, Generated.C37.quoteRight⟩
+def qf : QuoteFacts :=
+  ⟨Generated.C37.quoteChars, Generated.C37.quoteLeft, Generated.C37.quoteRight, Generated.C37.multiGuardAccessor == "DeclaredOutputs"⟩
 
 def unhx (s : String) : Option Str := (strOfHex s).map String.toList
 def hx (s : Str) : String := hexOfStr (String.ofList s)
@@ -35,14 +36,20 @@ def decEPs (eps : String) : Option (List (Str × Str)) :=
 
 def decSpec (s : String) : Option TSpec :=
   match s.splitOn ";" with
-  | [l, outs, b, eps] => do
+  | [l, outs, b, eps, extra] => do
     let l ← decLabel l
     let outs ← decList outs
     let b ← decBool b
     let eps ← decEPs eps
+    -- "_" : every output is a plain declared one; "n:<list>": these are named outputs; "f:<list>": a filegroup,
+    -- all of whose outputs are derived from its sources
+    let isFG := extra.startsWith "f:"
+    let ex ← if extra = "_" then some [] else
+      if extra.startsWith "n:" || isFG then decList (extra.drop 2).toString else none
+    if ex.any (fun e => !outs.contains e) || (isFG && ex ≠ outs) || (extra ≠ "_" && ex.isEmpty) then none else
     if outs.any (fun o => o = [] || hasPrefix o ['.', '/']) || !strictlyAscending outs then none
     else if (eps.map (·.1)).eraseDups.length ≠ eps.length then none
-    else pure ⟨l, outs, b, eps⟩
+    else pure ⟨l, outs, b, eps, ex⟩
   | _ => none
 
 def decInput (x : String) : Option Input :=
@@ -102,7 +109,7 @@ def step (line : String) : String :=
   | ["rs", test, root, a, b, c, d, cmd] =>
     match decBool test, unhx root, decTarget a b c d, unhx cmd with
     | some test, some root, some t, some cmd =>
-      if !wellFormed t then "bad-op"
+      if !wellFormed t || (a.splitOn ";f:").length > 1 then "bad-op"   -- the rule under test is never a filegroup
       else if test && hasPrefix cmd "$(worker".toList then "unmodelled"
       else
         let cmd := if test && cmd = [] then "$(exe :".toList ++ t.spec.label.name ++ [')'] else cmd
@@ -112,7 +119,7 @@ def step (line : String) : String :=
     | _, _, _, _ => "bad-op"
   | ["tp", a, b, c, d] =>
     match decTarget a b c d with
-    | some t => if !wellFormed t then "bad-op" else encList ((t.tmpPaths.eraseDups).foldr insertSorted [])
+    | some t => if !wellFormed t || (a.splitOn ";f:").length > 1 then "bad-op" else encList ((t.tmpPaths.eraseDups).foldr insertSorted [])
     | none => "bad-op"
   | ["pj", parts] =>
     match decList parts with
@@ -130,7 +137,7 @@ def step (line : String) : String :=
     -- end-to-end runs of the real binary: oracle only, the model has no say
     match unhx name with
     | some n =>
-      if (kind = "file" || kind = "multi" || kind = "nondep" || kind = "typo") && n ≠ [] &&
+      if (kind = "file" || kind = "multi" || kind = "nondep" || kind = "typo" || kind = "named" || kind = "fgroup") && n ≠ [] &&
          !(n.any fun c => c = '"' || c = '\\' || c = '\n' || c = '/') && n.head? ≠ some '.' then "-" else "bad-op"
     | none => "bad-op"
   | ["sw", text] =>
